@@ -14,10 +14,26 @@ RULE = ("case = (target type, store path, source value); float/double: doubles f
         "random valid x87 80-bit encodings (normals with 64-bit mantissas, denormals, zeros, inf, "
         "quiet NaN) and values produced by C; paths: new, item, field, cast, API arg, libffi arg, "
         "callback result, extern-Python result; distinct = (type,path,bits); non-trivial = value "
-        "not in {0,1,-1}")
+        "not in {0,1,-1}.  Audit extension: stored bytes are also read through ffi.buffer (write judged "
+        "independently of read); READ paths from raw bit patterns written through ffi.buffer (all "
+        "float32/float64 patterns: item, field, ffi.unpack aligned/unaligned, list()/slice, global, API "
+        "and libffi function result, struct-by-value result, callback / extern-Python ARGUMENTS in a "
+        "mixed (char,float,double,long double,float) signature); more SOURCES (Python int/bool, float "
+        "subclass, __index__ object, cdata float/double/long double/int/char/wchar_t/_Bool as source "
+        "of new/cast/item/call); more STORES (struct/array initializers nested, slice assignment, "
+        "global variable, variadic argument, unaligned pointer, struct by value argument, store after "
+        "a failed store); complex: real/int/bytes/str/__complex__/complex-cdata/float-cdata sources, "
+        "initializers, globals, unpack, extern-Python argument+result; long double: from Python float "
+        "(expected x87 encoding computed from the double's bits), to double (correct rounding computed "
+        "with exact integer arithmetic), unpack, global, variadic, initializer, unaligned, extern-Python "
+        "argument and result")
 ASSUMPTIONS = ["ctypes.c_float and struct.pack('f') perform the platform C double->float conversion",
                "invalid x87 encodings (pseudo-denormals, unnormals) are not generated: the hardware rewrites them",
-               "long double padding bytes 10..15 are not compared; NaN payloads are not compared for float/double (NaN stays NaN)"]
+               "long double padding bytes 10..15 are not compared; NaN payloads are not compared for float/double (NaN stays NaN)",
+               "CPython int->float and int/int true division are correctly rounded (used as the oracle for "
+               "Python int sources and for long double -> double)",
+               "a cdata float/double/long double used as the source of a store counts as 'an object with "
+               "__float__': expected = the C conversion of float(cdata)"]
 
 SRC = r'''
 #include <string.h>
@@ -44,6 +60,37 @@ struct sd { char c; double f; char d; };
 struct sl { char c; long double f; char d; };
 struct sfc { char c; float _Complex f; char d; };
 struct sdc { char c; double _Complex f; char d; };
+/* ---- audit extension ---- */
+#include <stdarg.h>
+unsigned char lastc[16];
+float gf; double gd; long double gl; float _Complex gfc; double _Complex gdc;
+float retgf(void) { return gf; }
+double retgd(void) { return gd; }
+long double retgl(void) { return gl; }
+float _Complex retgfc(void) { return gfc; }
+double _Complex retgdc(void) { return gdc; }
+double vad(int n, ...) { va_list ap; double r = 0; va_start(ap, n); while (n-- > 0) r = va_arg(ap, double);
+  va_end(ap); memcpy(&lastd, &r, 8); return r; }
+long double val(int n, ...) { va_list ap; long double r = 0; va_start(ap, n); while (n-- > 0) r = va_arg(ap, long double);
+  va_end(ap); memset(lastl, 0, 16); memcpy(lastl, &r, 10); return r; }
+double cbargs(double (*cb)(char, float, double, long double, float)) {
+  double r = cb('x', gf, gd, gl, gf); memcpy(&lastd, &r, 8); return r; }
+static double epargs(char, float, double, long double, float);
+double callepargs(void) { double r = epargs('x', gf, gd, gl, gf); memcpy(&lastd, &r, 8); return r; }
+static long double epl(long double, float);
+long double callepl(void) { long double x = epl(gl, gf); memset(lastl, 0, 16); memcpy(lastl, &x, 10); return x; }
+static long double epl0(void);
+long double callepl0(void) { long double x = epl0(); memset(lastl, 0, 16); memcpy(lastl, &x, 10); return x; }
+static float _Complex epfc(float _Complex, float);
+static double _Complex epdc(double _Complex, double);
+float _Complex callepfc(void) { float _Complex r = epfc(gfc, gf); memset(lastc, 0, 16); memcpy(lastc, &r, 8); return r; }
+double _Complex callepdc(void) { double _Complex r = epdc(gdc, gd); memcpy(lastc, &r, 16); return r; }
+struct nest { char c; struct sf inr; float arr[3]; double darr[2]; double _Complex z; float _Complex w;
+              long double l; char e; };
+float sfarg(struct sf s) { memcpy(&lastf, &s.f, 4); return s.f; }
+double sdarg(struct sd s) { memcpy(&lastd, &s.f, 8); return s.f; }
+struct sf sfres(void) { struct sf s; memset(&s, 0, sizeof s); s.f = gf; return s; }
+struct sd sdres(void) { struct sd s; memset(&s, 0, sizeof s); s.f = gd; return s; }
 '''
 CDEF = r'''
 unsigned int lastf; unsigned long long lastd; unsigned char lastl[16];
@@ -59,12 +106,84 @@ struct sd { char c; double f; char d; };
 struct sl { char c; long double f; char d; };
 struct sfc { char c; float _Complex f; char d; };
 struct sdc { char c; double _Complex f; char d; };
+unsigned char lastc[16];
+float gf; double gd; long double gl; float _Complex gfc; double _Complex gdc;
+float retgf(void); double retgd(void); long double retgl(void);
+float _Complex retgfc(void); double _Complex retgdc(void);
+double vad(int n, ...); long double val(int n, ...);
+double cbargs(double (*cb)(char, float, double, long double, float));
+extern "Python" double epargs(char, float, double, long double, float);
+double callepargs(void);
+extern "Python" long double epl(long double, float);
+long double callepl(void);
+extern "Python" long double epl0(void);
+long double callepl0(void);
+extern "Python" float _Complex epfc(float _Complex, float);
+extern "Python" double _Complex epdc(double _Complex, double);
+float _Complex callepfc(void); double _Complex callepdc(void);
+struct nest { char c; struct sf inr; float arr[3]; double darr[2]; double _Complex z; float _Complex w;
+              long double l; char e; };
+float sfarg(struct sf s); double sdarg(struct sd s);
+struct sf sfres(void); struct sd sdres(void);
 '''
 
 FPATHS = ['new', 'item', 'field', 'cast', 'apiarg', 'ffiarg', 'callback', 'externpy',
           'dunder_float', 'cast_char']
 CPATHS = ['new', 'item', 'field', 'cast', 'apiarg']
 LPATHS = ['new', 'item', 'field', 'cast', 'apiarg', 'ffiarg', 'callback', 'fromc']
+# audit extension: further sources / stores (values as before), reads from raw bit patterns,
+# callback / extern-Python arguments
+F2PATHS = ['pyint', 'pyobj', 'cdata_src', 'init', 'global', 'vararg', 'unaligned', 'structarg',
+           'after_error']
+FRPATHS = ['rd_item', 'rd_field', 'rd_unpack', 'rd_unaligned', 'rd_global', 'rd_apires', 'rd_ffires',
+           'rd_structres']
+C2PATHS = ['pyreal', 'cast_char', 'pyobj', 'cdata_src', 'init', 'global', 'unaligned', 'externpy']
+CRPATHS = ['rd_item', 'rd_unpack', 'rd_global', 'rd_apires']
+L2PATHS = ['from_pyfloat', 'to_double', 'unpack', 'global', 'vararg', 'init', 'unaligned']
+APATHS = ['cbarg', 'eparg', 'epl']
+
+F32_EDGES = [0, 0x80000000, 1, 0x80000001, 0x007fffff, 0x00800000, 0x00400000, 0x7f7fffff, 0xff7fffff,
+             0x7f800000, 0xff800000, 0x7fc00000, 0x7fa00000, 0xffc00001, 0x7f800001, 0x3f800000,
+             0xbf800000, 0x3f800001, 0x4b800000, 0x33800000]
+F64_EDGES = [0, 1 << 63, 1, (1 << 63) | 1, (1 << 52) - 1, 1 << 52, 0x7fefffffffffffff, 0x7ff0000000000000,
+             0xfff0000000000000, 0x7ff8000000000000, 0x7ff0000000000001, 0xfff8000000000001,
+             0x3ff0000000000000, 0xbff0000000000000, 0x3ff0000000000001, 0x36a0000000000000,
+             0x47efffffe0000000, 0x47efffffffffffff, 0x47f0000000000000]
+
+
+def rand_bits(rng, size):
+    """raw little-endian bytes (hex) of a float32 / float64 bit pattern."""
+    r = rng.random()
+    bits = 8 * size
+    if r < 0.12:
+        v = rng.choice(F32_EDGES if size == 4 else F64_EDGES)
+    elif r < 0.25:                  # denormals
+        v = (rng.getrandbits(1) << (bits - 1)) | rng.getrandbits(23 if size == 4 else 52)
+    elif r < 0.33:                  # NaNs with payloads / infinities
+        expall = (0xff << 23) if size == 4 else (0x7ff << 52)
+        v = (rng.getrandbits(1) << (bits - 1)) | expall | \
+            (rng.getrandbits(23 if size == 4 else 52) if rng.random() < 0.7 else 0)
+    else:
+        v = rng.getrandbits(bits)
+    return v.to_bytes(size, 'little').hex()
+
+
+def rand_pyint(rng):
+    r = rng.random()
+    if r < 0.06:
+        return rng.choice(['True', 'False'])
+    b = rng.choice([1, 2, 8, 24, 25, 31, 32, 53, 54, 55, 63, 64, 65, 100, 127, 128, 129, 300, 1000, 1023])
+    if r < 0.5:
+        v = (1 << b) + rng.choice([-2, -1, 0, 1, 2])
+        if b > 30 and rng.random() < 0.5:       # float32 / float64 halfway points of this binade
+            v = (1 << b) + rng.choice([1, 3]) * (1 << max(0, b - rng.choice([24, 25, 53, 54])))
+    else:
+        v = rng.getrandbits(b)
+    if v >= 1 << 1023:
+        v = (1 << 1023) - 1
+    if rng.random() < 0.5:
+        v = -v
+    return str(v)
 
 
 def spec(d):
@@ -121,6 +240,50 @@ def generate(ctx):
     for path in LPATHS:
         m = n if path != 'callback' else max(60, n // 6)
         cases.append({'T': 'long double', 'path': path, 'vals': [rand_x87(rng) for _ in range(m)]})
+    # ---- audit extension
+    m2 = ctx.scale(1200, 15000)          # each value goes through several (up to ~30) operations
+    m6 = ctx.scale(800, 10000)
+    for T in ('float', 'double'):
+        size = 4 if T == 'float' else 8
+        for path in F2PATHS:
+            if path == 'vararg' and T == 'float':
+                continue                      # a float is never passed through '...'
+            if path == 'pyint':
+                vals = ['0', '1', '-1', 'True', 'False', str(1 << 24), str((1 << 24) + 1),
+                        str((1 << 53) + 1), str((1 << 64) - 1), str(1 << 64), str(-(1 << 63)),
+                        str((1 << 128) - (1 << 103)), str((1 << 128) - (1 << 103) - 1), str(1 << 128),
+                        str((1 << 1023) - 1)]
+                while len(vals) < m2:
+                    vals.append(rand_pyint(rng))
+            else:
+                vals = doubles(m2)
+            cases.append({'T': T, 'path': path, 'vals': vals})
+        for path in FRPATHS:
+            edges = F32_EDGES if size == 4 else F64_EDGES
+            vals = [v.to_bytes(size, 'little').hex() for v in edges]
+            while len(vals) < m2:
+                vals.append(rand_bits(rng, size))
+            cases.append({'T': T, 'path': path, 'vals': vals})
+    for T in ('float _Complex', 'double _Complex'):
+        size = 4 if T.startswith('float') else 8
+        for path in C2PATHS:
+            if path in ('pyreal', 'cast_char'):
+                vals = doubles(m6)
+            else:
+                vals = [[a, b] for a, b in zip(doubles(m6), reversed(doubles(m6)))]
+            cases.append({'T': T, 'path': path, 'vals': vals})
+        for path in CRPATHS:
+            cases.append({'T': T, 'path': path,
+                          'vals': [rand_bits(rng, size) + rand_bits(rng, size) for _ in range(m6)]})
+    for path in L2PATHS:
+        if path == 'from_pyfloat':
+            vals = doubles(m2)
+        else:
+            vals = [rand_x87(rng) for _ in range(m2)]
+        cases.append({'T': 'long double', 'path': path, 'vals': vals})
+    for path in APATHS:
+        cases.append({'T': 'args', 'path': path,
+                      'vals': [[rand_bits(rng, 4), rand_bits(rng, 8), rand_x87(rng)] for _ in range(m6)]})
     return {'dir': d}, cases
 
 
@@ -160,10 +323,824 @@ class WithFloat(object):
         return self.x
 
 
+# ----------------------------------------------------------------- audit extension (child side)
+
+class FloatSub(float):
+    pass
+
+
+class IntSub(int):
+    pass
+
+
+class ComplexSub(complex):
+    pass
+
+
+class IndexOnly(object):
+    def __init__(self, k):
+        self.k = k
+
+    def __index__(self):
+        return self.k
+
+
+class WithComplex(object):
+    def __init__(self, z):
+        self.z = z
+
+    def __complex__(self):
+        return self.z
+
+
+class Raises(object):
+    def __float__(self):
+        raise ValueError("no float here")
+
+    def __complex__(self):
+        raise ValueError("no complex here")
+
+
+def x87_of_double(x):
+    """The 10 value bytes of (long double)x; None for a NaN (payload not compared)."""
+    b = dbits(x)
+    s, e, m = b >> 63, (b >> 52) & 0x7ff, b & ((1 << 52) - 1)
+    if e == 0x7ff:
+        if m:
+            return None
+        exp, mant = 32767, 1 << 63
+    elif e == 0:
+        if m == 0:
+            exp, mant = 0, 0
+        else:
+            bl = m.bit_length()
+            mant = m << (64 - bl)
+            exp = bl - 1 - 1074 + 16383
+    else:
+        exp, mant = e - 1023 + 16383, (1 << 63) | (m << 11)
+    return ((s << 79) | (exp << 64) | mant).to_bytes(10, 'little')
+
+
+def x87_is_nan(raw):
+    v = int.from_bytes(raw[:10], 'little')
+    return ((v >> 64) & 0x7fff) == 32767 and (v & ((1 << 63) - 1)) != 0
+
+
+def double_of_x87(raw):
+    """(double)ld, round-to-nearest-even, by exact integer arithmetic (valid encodings only)."""
+    v = int.from_bytes(raw[:10], 'little')
+    s, exp, mant = v >> 79, (v >> 64) & 0x7fff, v & ((1 << 64) - 1)
+    sign = -1.0 if s else 1.0
+    if exp == 32767:
+        return sign * math.inf if mant == 1 << 63 else math.nan
+    if exp == 0 or mant == 0:
+        return sign * 0.0
+    ue = exp - 16383
+    if ue >= 1025:
+        return sign * math.inf
+    if ue < -1080:
+        return sign * 0.0
+    e = ue - 63
+    try:
+        r = float(mant << e) if e >= 0 else mant / (1 << -e)
+    except OverflowError:
+        r = math.inf
+    return sign * r
+
+
+def ld_bytes(ffi, ld):
+    """value bytes of a long double cdata / of what a store of `ld` leaves in memory."""
+    q = ffi.new('long double *', ld)
+    return bytes(ffi.buffer(q)[0:10])
+
+
+def unaligned(ffi, T, size, count=3):
+    buf = ffi.new('char[]', count * size + 1)
+    p = ffi.cast(T + ' *', ffi.cast('char *', buf) + 1)
+    return buf, p
+
+
+def set_global(ffi, lib, name, raw):
+    b = ffi.buffer(ffi.addressof(lib, name))
+    b[0:len(raw)] = raw
+    if len(b) > len(raw):
+        b[len(raw):len(b)] = b'\0' * (len(b) - len(raw))
+
+
+def fd_ext(ffi, lib, rep, T, path, vals):
+    isf = T == 'float'
+    conv = c_float if isf else (lambda v: v)
+    size = 4 if isf else 8
+    fmt = '<f' if isf else '<d'
+    S = 'sf' if isf else 'sd'
+    sfx = 'f' if isf else 'd'
+    bits_of = fbits if isf else dbits
+    idfn = getattr(lib, 'id' + sfx)
+
+    def crec():
+        return lib.lastf if isf else lib.lastd
+
+    def judge(sub, hx, exp, got=None, mem=None, cr=None, src=None):
+        rep.stat('%s_%s:%s' % (T, path, sub))
+        if got is not None and (not isinstance(got, float) or not same(got, exp)):
+            rep.bad('value:' + path, '%s via %s/%s: source %s, read %r, C conversion gives %r'
+                    % (T, path, sub, src if src is not None else hx, got, exp), hx)
+        if mem is not None:
+            v = struct.unpack(fmt, mem)[0]
+            if not same(v, exp):
+                rep.bad('stored-bytes:' + path, '%s via %s/%s: source %s, memory holds %s (%r), '
+                        'C conversion gives %r' % (T, path, sub, src if src is not None else hx,
+                                                   mem.hex(), v, exp), hx)
+        if cr is not None and exp == exp and cr != bits_of(exp):
+            rep.bad('c-received:' + path, '%s via %s/%s: source %s, C received bits %#x, expected %#x'
+                    % (T, path, sub, src if src is not None else hx, cr, bits_of(exp)), hx)
+
+    def stores(sub, hx, src, exp, which=('new', 'cast', 'item', 'field', 'apiarg'), srcrepr=None):
+        """the same source object through several store paths"""
+        sr = srcrepr if srcrepr is not None else repr(src)
+        if 'new' in which:
+            p = ffi.new(T + '*', src)
+            judge(sub + '/new', hx, exp, p[0], bytes(ffi.buffer(p)), src=sr)
+        if 'cast' in which:
+            judge(sub + '/cast', hx, exp, float(ffi.cast(T, src)), src=sr)
+        if 'item' in which:
+            a = ffi.new(T + '[3]')
+            a[1] = src
+            judge(sub + '/item', hx, exp, a[1], bytes(ffi.buffer(a)[size:2 * size]), src=sr)
+            if a[0] != 0 or a[2] != 0:
+                rep.bad('neighbour-changed', '%s item store (%s)' % (T, path), hx)
+        if 'field' in which:
+            s = ffi.new('struct %s *' % S)
+            s.f = src
+            judge(sub + '/field', hx, exp, s.f, bytes(ffi.buffer(ffi.addressof(s, 'f'))), src=sr)
+            if s.c != b'\0' or s.d != b'\0':
+                rep.bad('neighbour-changed', '%s field store (%s)' % (T, path), hx)
+        if 'apiarg' in which:
+            g = idfn(src)
+            judge(sub + '/apiarg', hx, exp, g, cr=crec(), src=sr)
+        if 'ffiarg' in which:
+            g = ffi.addressof(lib, 'id' + sfx)(src)
+            judge(sub + '/ffiarg', hx, exp, g, cr=crec(), src=sr)
+
+    prev = 0.5
+    for i, hx in enumerate(vals):
+        try:
+            if path == 'pyint':
+                k = (hx == 'True') if hx in ('True', 'False') else int(hx)
+                exp = conv(float(k))
+                rep.case((T, path, hx), nontrivial=k not in (0, 1, -1), sample={'T': T, 'path': path, 'n': hx})
+                if abs(exp) == math.inf:
+                    rep.stat('overflow_to_inf')
+                elif float(k) != k or exp != k:
+                    rep.stat('pyint_rounded')
+                stores('int', hx, k, exp, ('new', 'cast', 'item', 'field', 'apiarg', 'ffiarg'))
+                if type(k) is int:
+                    stores('intsub', hx, IntSub(k), exp, ('new', 'cast', 'apiarg'))
+                if i % 8 == 0:
+                    cb = ffi.callback(T + '(void)', lambda: k)
+                    g = getattr(lib, 'call' + sfx)(cb)
+                    judge('int/callback', hx, exp, g, cr=crec(), src=hx)
+                continue
+            if path.startswith('rd_'):
+                raw = bytes.fromhex(hx)
+                exp = struct.unpack(fmt, raw)[0]
+                rep.case((T, path, hx), sample={'T': T, 'path': path, 'bits': hx})
+                if exp != exp:
+                    rep.stat('rd_nan_patterns')
+                elif exp != 0 and abs(exp) < (1.1754943508222875e-38 if isf else 2.2250738585072014e-308):
+                    rep.stat('rd_denormal_patterns')
+                zero = b'\0' * size
+                if path == 'rd_item':
+                    a = ffi.new(T + '[3]')
+                    ffi.buffer(a)[size:2 * size] = raw
+                    judge('item', hx, exp, a[1])
+                    judge('item-neg-index', hx, exp, (a + 2)[-1])
+                    judge('deref', hx, exp, ffi.cast(T + '*', a + 1)[0])
+                elif path == 'rd_field':
+                    s = ffi.new('struct %s *' % S)
+                    ffi.buffer(ffi.addressof(s, 'f'))[0:size] = raw
+                    judge('field', hx, exp, s.f)
+                    judge('field-of-struct', hx, exp, s[0].f)
+                    nn = ffi.new('struct nest *')
+                    fld, idx = ('arr', 2) if isf else ('darr', 1)
+                    ffi.buffer(ffi.addressof(nn, fld))[idx * size:(idx + 1) * size] = raw
+                    judge('nested-array-field', hx, exp, getattr(nn, fld)[idx])
+                    if isf:
+                        ffi.buffer(ffi.addressof(nn.inr, 'f'))[0:size] = raw
+                        judge('nested-struct-field', hx, exp, nn.inr.f)
+                elif path in ('rd_unpack', 'rd_unaligned'):
+                    praw = struct.pack(fmt, prev)
+                    if path == 'rd_unpack':
+                        a = ffi.new(T + '[3]')
+                        ffi.buffer(a)[0:3 * size] = praw + raw + zero
+                    else:
+                        keep, a = unaligned(ffi, T, size)
+                        ffi.buffer(keep)[1:1 + 3 * size] = praw + raw + zero
+                        judge('item', hx, exp, a[1])
+                    u = ffi.unpack(a, 3)
+                    judge('unpack', hx, exp, u[1])
+                    if not (isinstance(u[0], float) and same(u[0], prev) and same(u[2], 0.0)) or len(u) != 3:
+                        rep.bad('value:' + path, '%s unpack of [%r, %s, 0]: %r' % (T, prev, hx, u), hx)
+                    judge('unpack-2', hx, exp, ffi.unpack(a + 1, 1)[0])
+                    if path == 'rd_unpack':
+                        judge('list', hx, exp, list(a)[1])
+                        judge('slice', hx, exp, a[1:3][0])
+                        judge('list-of-slice', hx, exp, list(a[0:2])[1])
+                    prev = exp if exp == exp else 0.25
+                elif path == 'rd_global':
+                    set_global(ffi, lib, 'g' + sfx, raw)
+                    judge('global', hx, exp, getattr(lib, 'g' + sfx))
+                    judge('global-addressof', hx, exp, ffi.addressof(lib, 'g' + sfx)[0])
+                elif path == 'rd_apires':
+                    set_global(ffi, lib, 'g' + sfx, raw)
+                    judge('apires', hx, exp, getattr(lib, 'retg' + sfx)())
+                elif path == 'rd_ffires':
+                    set_global(ffi, lib, 'g' + sfx, raw)
+                    judge('ffires', hx, exp, ffi.addressof(lib, 'retg' + sfx)())
+                elif path == 'rd_structres':
+                    set_global(ffi, lib, 'g' + sfx, raw)
+                    judge('structres-api', hx, exp, getattr(lib, 's%sres' % sfx)().f)
+                    judge('structres-ffi', hx, exp, ffi.addressof(lib, 's%sres' % sfx)().f)
+                continue
+            x = float.fromhex(hx)
+            exp = conv(x)
+            rep.case((T, path, hx), nontrivial=x not in (0.0, 1.0, -1.0),
+                     sample={'T': T, 'path': path, 'x': hx})
+            if exp != exp:
+                rep.stat('nan_sources')
+            elif abs(exp) == math.inf and abs(x) != math.inf:
+                rep.stat('overflow_to_inf')
+            elif isf and exp != x:
+                rep.stat('rounded')
+            if path == 'pyobj':
+                stores('floatsub', hx, FloatSub(x), exp, ('new', 'cast', 'item', 'apiarg', 'ffiarg'),
+                       srcrepr='FloatSub(%r)' % x)
+                if x == x and abs(x) < 2.0 ** 1000:
+                    k = int(x)
+                    stores('index', hx, IndexOnly(k), conv(float(k)), ('new', 'cast', 'field', 'apiarg'),
+                           srcrepr='object with __index__ -> %d' % k)
+            elif path == 'cdata_src':
+                for tn, e2 in (('double', exp), ('float', conv(c_float(x))), ('long double', exp)):
+                    src = ffi.cast(tn, x)
+                    stores('from-' + tn.replace(' ', ''), hx, src, e2,
+                           ('new', 'cast', 'item', 'field', 'apiarg', 'ffiarg'),
+                           srcrepr='cast(%s, %r)' % (tn, x))
+                if x == x and abs(x) != math.inf:
+                    k = max(-2 ** 31, min(2 ** 31 - 1, int(x)))
+                    ku = int(abs(x)) % (1 << 64)
+                    c = int(abs(x)) % 256
+                    w = (int(abs(x)) % 0xD000) + 1
+                    for tn, v, ev in (('int', k, k), ('long long', -ku // 2, -ku // 2),
+                                      ('unsigned long long', ku, ku), ('unsigned char', c, c),
+                                      ('char', bytes([c]), c), ('wchar_t', chr(w), w),
+                                      ('_Bool', bool(k), int(bool(k)))):
+                        g = float(ffi.cast(T, ffi.cast(tn, v)))
+                        judge('cast-from-' + tn.replace(' ', ''), hx, conv(float(ev)), g,
+                              src='cast(%s, %r)' % (tn, v))
+            elif path == 'init':
+                ey = conv(prev)
+                fld = 'arr' if isf else 'darr'
+                if i % 2:
+                    init = {fld: [prev, x]}
+                    if isf:
+                        init['inr'] = {'f': x}
+                else:
+                    init = [b'c', [b'a', x if isf else 0.0, b'b'], [prev, x, prev] if isf else [0, 0],
+                            [prev, x]]
+                    if isf:
+                        init = init[:3]
+                nn = ffi.new('struct nest *', init)
+                arr = getattr(nn, fld)
+                judge('struct-init-array', hx, exp, arr[1],
+                      bytes(ffi.buffer(ffi.addressof(nn, fld))[size:2 * size]))
+                if not same(arr[0], ey):
+                    rep.bad('value:init', '%s struct initializer %r: first item %r' % (T, init, arr[0]), hx)
+                if isf:
+                    judge('struct-init-nested', hx, exp, nn.inr.f,
+                          bytes(ffi.buffer(ffi.addressof(nn.inr, 'f'))))
+                s = ffi.new('struct %s *' % S, [b'q', x] if i % 2 else {'f': x})
+                judge('struct-init', hx, exp, s.f, bytes(ffi.buffer(ffi.addressof(s, 'f'))))
+                a = ffi.new(T + '[]', [prev, x, prev])
+                judge('array-init-list', hx, exp, a[1], bytes(ffi.buffer(a)[size:2 * size]))
+                a = ffi.new(T + '[4]', (x,))
+                judge('array-init-tuple', hx, exp, a[0], bytes(ffi.buffer(a)[0:size]))
+                if bytes(ffi.buffer(a)[size:4 * size]) != b'\0' * (3 * size):
+                    rep.bad('neighbour-changed', '%s partial array initializer' % T, hx)
+                a[1:3] = [x, prev]
+                judge('slice-assign', hx, exp, a[1], bytes(ffi.buffer(a)[size:2 * size]))
+                if not same(a[2], ey) or a[3] != 0:
+                    rep.bad('value:init', '%s slice assignment [x, %r]: a[2]=%r a[3]=%r'
+                            % (T, prev, a[2], a[3]), hx)
+                b = ffi.new(T + '[2]')
+                b[0:2] = a[1:3]
+                judge('slice-assign-cdata', hx, exp, b[0], bytes(ffi.buffer(b)[0:size]))
+                pp = ffi.new(T + '**', ffi.new(T + '*', x))     # initializer one level down stays alive?
+                del pp
+            elif path == 'global':
+                setattr(lib, 'g' + sfx, x)
+                mem = bytes(ffi.buffer(ffi.addressof(lib, 'g' + sfx)))
+                judge('global', hx, exp, getattr(lib, 'g' + sfx), mem)
+                judge('global-then-c', hx, exp, getattr(lib, 'retg' + sfx)())
+                ffi.addressof(lib, 'g' + sfx)[0] = prev
+                setattr(lib, 'g' + sfx, FloatSub(x))
+                judge('global-2', hx, exp, None, bytes(ffi.buffer(ffi.addressof(lib, 'g' + sfx))))
+            elif path == 'vararg':
+                g = lib.vad(2, ffi.cast('double', prev), ffi.cast('double', x))
+                judge('vararg-double', hx, exp, g, cr=lib.lastd)
+                g = lib.vad(3, ffi.cast('double', prev), ffi.cast('double', -prev), ffi.cast('double', x))
+                judge('vararg-double-3', hx, exp, g, cr=lib.lastd)
+            elif path == 'unaligned':
+                keep, p = unaligned(ffi, T, size)
+                p[1] = x
+                mem = bytes(ffi.buffer(keep))
+                judge('unaligned-item', hx, exp, p[1], mem[1 + size:1 + 2 * size])
+                if mem[:1 + size] != bytes(1 + size) or mem[1 + 2 * size:] != bytes(size):
+                    rep.bad('neighbour-changed', '%s unaligned item store' % T, hx)
+                q = ffi.cast(T + ' *', ffi.cast('char *', keep) + 1 + 2 * size)
+                q[0] = FloatSub(x)
+                judge('unaligned-deref', hx, exp, q[0], bytes(ffi.buffer(keep))[1 + 2 * size:1 + 3 * size])
+            elif path == 'structarg':
+                for nm, f in (('api', getattr(lib, 's%sarg' % sfx)),
+                              ('ffi', ffi.addressof(lib, 's%sarg' % sfx))):
+                    g = f({'f': x})
+                    judge('structarg-dict-' + nm, hx, exp, g, cr=crec())
+                    g = f([b'a', x, b'b'])
+                    judge('structarg-list-' + nm, hx, exp, g, cr=crec())
+                    s = ffi.new('struct %s *' % S)
+                    s.f = x
+                    g = f(s[0])
+                    judge('structarg-cdata-' + nm, hx, exp, g, cr=crec())
+            elif path == 'after_error':
+                a = ffi.new(T + '[3]')
+                a[1] = prev
+                kind = i % 8
+                raised = False
+                try:
+                    if kind == 0:
+                        a[1] = None
+                    elif kind == 1:
+                        a[1] = 'a'
+                    elif kind == 2:
+                        ffi.cast(T, 'ab')
+                    elif kind == 3:
+                        a[1] = Raises()
+                    elif kind == 4:
+                        idfn(b'x')
+                    elif kind == 5:
+                        ffi.cast(T, 10 ** 400)
+                    elif kind == 6:
+                        a[1] = [x]
+                    else:
+                        ffi.new(T + '*', Raises())
+                except Exception:
+                    raised = True
+                rep.stat('failed_store_raised' if raised else 'failed_store_did_not_raise')
+                a[1] = x
+                judge('item-after-error', hx, exp, a[1], bytes(ffi.buffer(a)[size:2 * size]))
+                judge('cast-after-error', hx, exp, float(ffi.cast(T, x)))
+                g = idfn(x)
+                judge('apiarg-after-error', hx, exp, g, cr=crec())
+            prev = x if x == x else 0.25
+        except Exception as e:
+            rep.bad('raised:' + path, '%s via %s of %s raised %s: %s' % (T, path, hx, type(e).__name__, e), hx)
+    return rep.result()
+
+
+def cx_ext(ffi, lib, rep, T, path, vals):
+    isf = T.startswith('float')
+    conv = c_float if isf else (lambda v: v)
+    size = 4 if isf else 8
+    fmt = '<ff' if isf else '<dd'
+    S = 'sfc' if isf else 'sdc'
+    p2 = 'f' if isf else 'd'
+    gname = 'g%sc' % p2
+    other = 'double _Complex' if isf else 'float _Complex'
+    # mechanism key: the extern-Python path is keyed per base type (the two differ in slot size)
+    pkey = path if path != 'externpy' else 'externpy-' + ('float' if isf else 'double')
+
+    def judge(sub, det, er, ei, got=None, mem=None, src=None):
+        rep.stat('%s_%s:%s' % (T, path, sub))
+        if got is not None and (not isinstance(got, complex) or not same(got.real, er) or
+                                not same(got.imag, ei)):
+            rep.bad('value:complex:' + pkey, '%s via %s/%s: source %s, read %r, expected (%r, %r)'
+                    % (T, path, sub, src if src is not None else det, got, er, ei), det)
+        if mem is not None:
+            a, b = struct.unpack(fmt, mem)
+            if not same(a, er) or not same(b, ei):
+                rep.bad('stored-bytes:complex:' + pkey, '%s via %s/%s: source %s, memory holds %s '
+                        '(%r, %r), expected (%r, %r)' % (T, path, sub, src if src is not None else det,
+                                                         mem.hex(), a, b, er, ei), det)
+
+    def stores(sub, det, src, er, ei, which=('new', 'cast', 'item', 'field', 'apiarg'), srcrepr=None):
+        sr = srcrepr if srcrepr is not None else repr(src)
+        if 'new' in which:
+            p = ffi.new(T + '*', src)
+            judge(sub + '/new', det, er, ei, p[0], bytes(ffi.buffer(p)), src=sr)
+        if 'cast' in which:
+            judge(sub + '/cast', det, er, ei, complex(ffi.cast(T, src)), src=sr)
+        if 'item' in which:
+            a = ffi.new(T + '[3]')
+            a[1] = src
+            judge(sub + '/item', det, er, ei, a[1], bytes(ffi.buffer(a)[2 * size:4 * size]), src=sr)
+            if a[0] != 0 or a[2] != 0:
+                rep.bad('neighbour-changed', '%s item store (%s)' % (T, path), det)
+        if 'field' in which:
+            s = ffi.new('struct %s *' % S)
+            s.f = src
+            judge(sub + '/field', det, er, ei, s.f, bytes(ffi.buffer(ffi.addressof(s, 'f'))), src=sr)
+            if s.c != b'\0' or s.d != b'\0':
+                rep.bad('neighbour-changed', '%s field store (%s)' % (T, path), det)
+        if 'apiarg' in which:
+            g = getattr(lib, 'id%sc' % p2)(src)
+            re_ = getattr(lib, p2 + 'cre')(src)
+            im_ = getattr(lib, p2 + 'cim')(src)
+            judge(sub + '/apiarg', det, er, ei, g, src=sr)
+            if not (same(re_, er) and same(im_, ei)):
+                rep.bad('c-received:complex:' + pkey, '%s passed %s: C sees (%r, %r), expected (%r, %r)'
+                        % (T, sr, re_, im_, er, ei), det)
+
+    cur = {}
+    if path == 'externpy':
+        def ep(z, y):
+            cur['got'] = (z, y)
+            return cur['ret']
+        ffi.def_extern(name='ep%sc' % p2)(ep)
+    prevz = complex(0.5, -2.0)
+    for i, det in enumerate(vals):
+        try:
+            if path.startswith('rd_'):
+                raw = bytes.fromhex(det)
+                er, ei = struct.unpack(fmt, raw)
+                rep.case((T, path, det), sample={'T': T, 'path': path, 'bits': det})
+                if path == 'rd_item':
+                    a = ffi.new(T + '[3]')
+                    ffi.buffer(a)[2 * size:4 * size] = raw
+                    judge('item', det, er, ei, a[1])
+                    s = ffi.new('struct %s *' % S)
+                    ffi.buffer(ffi.addressof(s, 'f'))[0:2 * size] = raw
+                    judge('field', det, er, ei, s.f)
+                    judge('complex-of-cast', det, er, ei, complex(ffi.cast(T, a[1])))
+                elif path == 'rd_unpack':
+                    a = ffi.new(T + '[3]')
+                    ffi.buffer(a)[2 * size:4 * size] = raw
+                    u = ffi.unpack(a, 3)
+                    judge('unpack', det, er, ei, u[1])
+                    if u[0] != 0 or u[2] != 0 or len(u) != 3:
+                        rep.bad('value:complex:' + pkey, '%s unpack neighbours %r' % (T, u), det)
+                    judge('list', det, er, ei, list(a)[1])
+                    keep, p = unaligned(ffi, T, 2 * size)
+                    ffi.buffer(keep)[1 + 2 * size:1 + 4 * size] = raw
+                    judge('unaligned-item', det, er, ei, p[1])
+                    judge('unaligned-unpack', det, er, ei, ffi.unpack(p, 2)[1])
+                elif path == 'rd_global':
+                    set_global(ffi, lib, gname, raw)
+                    judge('global', det, er, ei, getattr(lib, gname))
+                elif path == 'rd_apires':
+                    set_global(ffi, lib, gname, raw)
+                    judge('apires', det, er, ei, getattr(lib, 'ret' + gname)())
+                continue
+            if path in ('pyreal', 'cast_char'):
+                x = float.fromhex(det)
+                rep.case((T, path, det), sample={'T': T, 'path': path, 'x': det})
+                if path == 'pyreal':
+                    stores('float', det, x, conv(x), 0.0)
+                    stores('dunder-float', det, WithFloat(x), conv(x), 0.0, ('new', 'cast', 'apiarg'),
+                           srcrepr='object with __float__ -> %r' % x)
+                    if x == x and abs(x) != math.inf and abs(x) < 2.0 ** 1000:
+                        k = int(x)
+                        stores('int', det, k, conv(float(k)), 0.0, ('new', 'cast', 'item', 'apiarg'))
+                        stores('bool', det, bool(k), float(bool(k)), 0.0, ('new', 'cast'))
+                else:
+                    c = int(abs(x)) % 256 if x == x and abs(x) != math.inf else 7
+                    w = c * 257 % 0x10FFFF if c else 1
+                    if 0xD800 <= w < 0xE000:
+                        w = 0xE000
+                    judge('cast-bytes', det, float(c), 0.0, complex(ffi.cast(T, bytes([c]))),
+                          src='bytes([%d])' % c)
+                    judge('cast-str', det, conv(float(w)), 0.0, complex(ffi.cast(T, chr(w))),
+                          src='chr(%d)' % w)
+                    judge('cast-char-cdata', det, float(c), 0.0,
+                          complex(ffi.cast(T, ffi.cast('char', bytes([c])))), src='cast(char, %d)' % c)
+                    judge('cast-wchar-cdata', det, conv(float(w)), 0.0,
+                          complex(ffi.cast(T, ffi.cast('wchar_t', chr(w)))), src='cast(wchar_t, %d)' % w)
+                continue
+            ha, hb = det
+            a, b = float.fromhex(ha), float.fromhex(hb)
+            z = complex(a, b)
+            er, ei = conv(a), conv(b)
+            rep.case((T, path, ha, hb), sample={'T': T, 'path': path, 'z': [ha, hb]})
+            if path == 'pyobj':
+                stores('dunder-complex', det, WithComplex(z), er, ei, srcrepr='object with __complex__ -> %r' % z)
+                stores('complexsub', det, ComplexSub(z), er, ei, ('new', 'cast', 'item', 'apiarg'),
+                       srcrepr='ComplexSub(%r)' % z)
+            elif path == 'cdata_src':
+                stores('from-same', det, ffi.cast(T, z), er, ei, srcrepr='cast(%s, %r)' % (T, z))
+                stores('from-other', det, ffi.cast(other, z), conv(c_float(a)), conv(c_float(b)),
+                       srcrepr='cast(%s, %r)' % (other, z))
+                stores('from-item', det, ffi.new(T + '*', z)[0], er, ei, ('new', 'cast'))
+                for tn, e2 in (('double', er), ('float', conv(c_float(a)))):
+                    judge('cast-from-' + tn, det, e2, 0.0, complex(ffi.cast(T, ffi.cast(tn, a))),
+                          src='cast(%s, %r)' % (tn, a))
+                if a == a and abs(a) != math.inf:
+                    k = max(-2 ** 31, min(2 ** 31 - 1, int(a)))
+                    judge('cast-from-int', det, conv(float(k)), 0.0, complex(ffi.cast(T, ffi.cast('int', k))),
+                          src='cast(int, %d)' % k)
+            elif path == 'init':
+                fld = 'w' if isf else 'z'
+                nn = ffi.new('struct nest *', {fld: z, 'e': b'e'})
+                judge('struct-init', det, er, ei, getattr(nn, fld),
+                      bytes(ffi.buffer(ffi.addressof(nn, fld))))
+                arr = ffi.new(T + '[]', [prevz, z, a])
+                judge('array-init', det, er, ei, arr[1], bytes(ffi.buffer(arr)[2 * size:4 * size]))
+                judge('array-init-real', det, er, 0.0, arr[2], bytes(ffi.buffer(arr)[4 * size:6 * size]))
+                arr[0:2] = [z, prevz]
+                judge('slice-assign', det, er, ei, arr[0], bytes(ffi.buffer(arr)[0:2 * size]))
+                s = ffi.new('struct %s *' % S, [b'c', z])
+                judge('struct-init-list', det, er, ei, s.f, bytes(ffi.buffer(ffi.addressof(s, 'f'))))
+            elif path == 'global':
+                setattr(lib, gname, z)
+                judge('global', det, er, ei, getattr(lib, gname),
+                      bytes(ffi.buffer(ffi.addressof(lib, gname))))
+                judge('global-then-c', det, er, ei, getattr(lib, 'ret' + gname)())
+            elif path == 'unaligned':
+                keep, p = unaligned(ffi, T, 2 * size)
+                p[1] = z
+                mem = bytes(ffi.buffer(keep))
+                judge('unaligned-item', det, er, ei, p[1], mem[1 + 2 * size:1 + 4 * size])
+                if mem[:1 + 2 * size] != bytes(1 + 2 * size) or mem[1 + 4 * size:] != bytes(2 * size):
+                    rep.bad('neighbour-changed', '%s unaligned item store' % T, det)
+            elif path == 'externpy':
+                # C passes (g?c, g?) to the extern "Python" function and records what comes back
+                # (double _Complex: 16-byte argument in the 8-byte slots of the generated
+                # extern "Python" trampoline -- keyed separately as externpy-double)
+                set_global(ffi, lib, gname, struct.pack(fmt, er, ei))
+                yv = conv(prevz.real)
+                set_global(ffi, lib, 'g' + p2, struct.pack('<f' if isf else '<d', yv))
+                cur['ret'] = complex(b, a)
+                cur.pop('got', None)
+                r = getattr(lib, 'callep%sc' % p2)()
+                if 'got' not in cur:
+                    rep.bad('value:complex:' + pkey, '%s extern "Python" function was not called' % T, det)
+                else:
+                    gz, gy = cur['got']
+                    judge('arg', det, er, ei, gz, src='C value (%r, %r)' % (er, ei))
+                    if not isinstance(gy, float) or not same(gy, yv):
+                        rep.bad('value:complex:' + pkey, '%s extern "Python"(z, y): y passed as %r, '
+                                'received %r' % (T, yv, gy), det)
+                judge('result', det, ei, er, r, bytes(ffi.buffer(lib.lastc)[0:2 * size]),
+                      src='returned %r' % cur['ret'])
+            prevz = z if z == z else complex(0.25, 4.0)
+        except Exception as e:
+            rep.bad('raised:' + path, '%s via %s of %s raised %s: %s' % (T, path, det, type(e).__name__, e), det)
+    return rep.result()
+
+
+def ld_ext(ffi, lib, rep, path, vals):
+    T = 'long double'
+
+    def judge_bytes(sub, hx, out, raw, mech='longdouble-copy:'):
+        rep.stat('longdouble_%s:%s' % (path, sub))
+        if out != raw:
+            rep.bad(mech + path, 'long double %s via %s/%s became %s' % (raw.hex(), path, sub, out.hex()), hx)
+
+    cur = {}
+    if path == 'from_pyfloat':
+        ffi.def_extern(name='epl0')(lambda: cur['x'])
+    prevraw = x87_of_double(0.5)
+    for i, hx in enumerate(vals):
+        try:
+            if path == 'from_pyfloat':
+                x = float.fromhex(hx)
+                expb = x87_of_double(x)
+                rep.case(('ld', path, hx), nontrivial=x not in (0.0, 1.0, -1.0),
+                         sample={'T': T, 'path': path, 'x': hx})
+
+                def jf(sub, out, back=None, hx=hx, x=x, expb=expb):
+                    rep.stat('longdouble_%s:%s' % (path, sub))
+                    if expb is None:
+                        if not x87_is_nan(out):
+                            rep.bad('longdouble-from-double:' + path, 'NaN stored as long double via %s '
+                                    'became %s' % (sub, out.hex()), hx)
+                    elif out != expb:
+                        rep.bad('longdouble-from-double:' + path, '%r stored as long double via %s: '
+                                'memory %s, (long double)x is %s' % (x, sub, out.hex(), expb.hex()), hx)
+                    if back is not None and (not isinstance(back, float) or not same(back, x)):
+                        rep.bad('longdouble-to-double:' + path, '%r -> long double (%s) -> float() gives %r'
+                                % (x, sub, back), hx)
+                p = ffi.new('long double *', x)
+                jf('new', bytes(ffi.buffer(p)[0:10]), float(p[0]))
+                c = ffi.cast('long double', x)
+                jf('cast', ld_bytes(ffi, c), float(c))
+                jf('cast-dunder-float', ld_bytes(ffi, ffi.cast('long double', WithFloat(x))))
+                a = ffi.new('long double[3]')
+                a[1] = x
+                jf('item', bytes(ffi.buffer(a)[16:26]), float(a[1]))
+                s = ffi.new('struct sl *', {'f': x})
+                jf('field-init', bytes(ffi.buffer(ffi.addressof(s, 'f'))[0:10]))
+                s.f = FloatSub(x)
+                jf('field', bytes(ffi.buffer(ffi.addressof(s, 'f'))[0:10]), float(s.f))
+                r = lib.idl(x)
+                jf('apiarg', bytes(ffi.buffer(lib.lastl)[0:10]), float(r))
+                r = ffi.addressof(lib, 'idl')(x)
+                jf('ffiarg', bytes(ffi.buffer(lib.lastl)[0:10]), float(r))
+                lib.gl = x
+                jf('global', bytes(ffi.buffer(ffi.addressof(lib, 'gl'))[0:10]), float(lib.gl))
+                nn = ffi.new('struct nest *', {'l': x})
+                jf('struct-init', bytes(ffi.buffer(ffi.addressof(nn, 'l'))[0:10]))
+                if i % 6 == 0:
+                    cb = ffi.callback('long double(void)', lambda: x)
+                    r = lib.calll(cb)
+                    jf('callback-result', bytes(ffi.buffer(lib.lastl)[0:10]), float(r))
+                    cur['x'] = x
+                    r = lib.callepl0()
+                    jf('externpy-result', bytes(ffi.buffer(lib.lastl)[0:10]), float(r))
+                if x == x and abs(x) != math.inf and abs(x) < 2.0 ** 1000:
+                    k = int(x)
+                    eb = x87_of_double(float(k))
+                    out = ld_bytes(ffi, ffi.cast('long double', k))
+                    rep.stat('longdouble_from_pyfloat:cast-int')
+                    if out != eb:
+                        rep.bad('longdouble-from-double:' + path, 'cast(long double, %d): memory %s, '
+                                'expected %s' % (k, out.hex(), eb.hex()), hx)
+                continue
+            raw = bytes.fromhex(hx)
+            src = ffi.new('long double *')
+            ffi.buffer(src)[0:10] = raw
+            ld = src[0]
+            rep.case(('ld', path, hx), sample={'T': T, 'path': path, 'x87': hx})
+            if int.from_bytes(raw[:8], 'little') & 0x7ff:
+                rep.stat('longdouble_mantissa_beyond_double')
+            if path == 'to_double':
+                expd = double_of_x87(raw)
+                v = int.from_bytes(raw, 'little')
+                if expd == expd and abs(expd) not in (0.0, math.inf) and (v & 0x7ff):
+                    rep.stat('longdouble_to_double_rounded')
+                elif abs(expd) == math.inf and ((v >> 64) & 0x7fff) != 32767:
+                    rep.stat('longdouble_to_double_overflow')
+
+                def jd(sub, got, cr=None, hx=hx, expd=expd):
+                    rep.stat('longdouble_%s:%s' % (path, sub))
+                    if not isinstance(got, float) or not same(got, expd):
+                        rep.bad('longdouble-to-double:' + path, 'long double %s via %s gives %r, '
+                                '(double)ld is %r' % (hx, sub, got, expd), hx)
+                    if cr is not None and expd == expd and cr != dbits(expd):
+                        rep.bad('c-received:' + path, 'long double %s passed as double: C received %#x, '
+                                'expected %#x' % (hx, cr, dbits(expd)), hx)
+                jd('float()', float(ld))
+                jd('cast-double', float(ffi.cast('double', ld)))
+                jd('new-double', ffi.new('double *', ld)[0])
+                a = ffi.new('double[2]')
+                a[1] = ld
+                jd('item-double', a[1])
+                g = lib.idd(ld)
+                jd('apiarg-double', g, lib.lastd)
+                jd('float-of-copy', float(ffi.cast('long double', ld)))
+            elif path == 'unpack':
+                a = ffi.new('long double[3]')
+                ffi.buffer(a)[0:10] = prevraw
+                ffi.buffer(a)[16:26] = raw
+                u = ffi.unpack(a, 3)
+                judge_bytes('unpack', hx, ld_bytes(ffi, u[1]), raw)
+                judge_bytes('unpack-first', hx, ld_bytes(ffi, u[0]), prevraw)
+                judge_bytes('list', hx, ld_bytes(ffi, list(a)[1]), raw)
+                judge_bytes('slice', hx, ld_bytes(ffi, a[1:3][0]), raw)
+                b = ffi.new('long double[3]')
+                b[0:3] = a[0:3]
+                judge_bytes('slice-assign-cdata', hx, bytes(ffi.buffer(b)[16:26]), raw)
+                b[0:2] = [u[1], u[0]]
+                judge_bytes('slice-assign-list', hx, bytes(ffi.buffer(b)[0:10]), raw)
+            elif path == 'global':
+                lib.gl = ld
+                judge_bytes('global-store', hx, bytes(ffi.buffer(ffi.addressof(lib, 'gl'))[0:10]), raw)
+                judge_bytes('global-read', hx, ld_bytes(ffi, lib.gl), raw)
+                judge_bytes('global-then-c', hx, ld_bytes(ffi, lib.retgl()), raw)
+                judge_bytes('global-then-c-ffi', hx, ld_bytes(ffi, ffi.addressof(lib, 'retgl')()), raw)
+            elif path == 'vararg':
+                other = ffi.new('long double *')
+                ffi.buffer(other)[0:10] = prevraw
+                r = lib.val(2, other[0], ld)
+                judge_bytes('vararg', hx, bytes(ffi.buffer(lib.lastl)[0:10]), raw, 'c-received:longdouble-')
+                judge_bytes('vararg-result', hx, ld_bytes(ffi, r), raw)
+                r = lib.val(1, ld, other[0])
+                judge_bytes('vararg-first', hx, bytes(ffi.buffer(lib.lastl)[0:10]), raw,
+                            'c-received:longdouble-')
+            elif path == 'init':
+                nn = ffi.new('struct nest *', {'l': ld, 'e': b'e'})
+                judge_bytes('struct-init', hx, bytes(ffi.buffer(ffi.addressof(nn, 'l'))[0:10]), raw)
+                s = ffi.new('struct sl *', [b'c', ld, b'd'])
+                judge_bytes('struct-init-list', hx, bytes(ffi.buffer(ffi.addressof(s, 'f'))[0:10]), raw)
+                a = ffi.new('long double[]', [0, ld])
+                judge_bytes('array-init', hx, bytes(ffi.buffer(a)[16:26]), raw)
+                if bytes(ffi.buffer(a)[0:10]) != b'\0' * 10:
+                    rep.bad('neighbour-changed', 'long double array initializer', hx)
+                c2 = ffi.cast('long double', ffi.cast('long double', ld))
+                judge_bytes('cast-twice', hx, ld_bytes(ffi, c2), raw)
+                pp = ffi.new('long double *', ffi.new('long double *', ld)[0])
+                judge_bytes('new-of-item', hx, bytes(ffi.buffer(pp)[0:10]), raw)
+            elif path == 'unaligned':
+                keep, p = unaligned(ffi, T, 16)
+                p[1] = ld
+                mem = bytes(ffi.buffer(keep))
+                judge_bytes('unaligned-store', hx, mem[17:27], raw)
+                judge_bytes('unaligned-read', hx, ld_bytes(ffi, p[1]), raw)
+                judge_bytes('unaligned-unpack', hx, ld_bytes(ffi, ffi.unpack(p, 2)[1]), raw)
+                if mem[:17] != b'\0' * 17 or mem[33:] != b'\0' * 16:
+                    rep.bad('neighbour-changed', 'long double unaligned item store', hx)
+            prevraw = raw
+        except Exception as e:
+            rep.bad('raised:' + path, 'long double via %s of %s raised %s: %s'
+                    % (path, hx, type(e).__name__, e), hx)
+    return rep.result()
+
+
+def args_ext(ffi, lib, rep, path, vals):
+    """C calls a callback / extern "Python" function with (char, float, double, long double, float)
+    read from globals whose bytes were set through ffi.buffer."""
+    cur = {}
+
+    def rec(c, a, b, l, a2):
+        cur['got'] = (c, a, b, l, a2)
+        return cur['ret']
+
+    def recl(l, a):
+        cur['got'] = (l, a)
+        return cur['ret']
+    if path == 'cbarg':
+        cb = ffi.callback('double(char, float, double, long double, float)', rec)
+        call = lambda: lib.cbargs(cb)
+    elif path == 'eparg':
+        ffi.def_extern(name='epargs')(rec)
+        call = lib.callepargs
+    else:
+        ffi.def_extern(name='epl')(recl)
+        call = lib.callepl
+    for det in vals:
+        fh, dh, lh = det
+        try:
+            fraw, draw, lraw = bytes.fromhex(fh), bytes.fromhex(dh), bytes.fromhex(lh)
+            ef = struct.unpack('<f', fraw)[0]
+            ed = struct.unpack('<d', draw)[0]
+            set_global(ffi, lib, 'gf', fraw)
+            set_global(ffi, lib, 'gd', draw)
+            set_global(ffi, lib, 'gl', lraw)
+            cur.pop('got', None)
+            rep.case(('args', path, fh, dh, lh), sample={'T': 'args', 'path': path, 'bits': det})
+            rep.stat('args_' + path)
+            if path == 'epl':
+                cur['ret'] = ffi.addressof(lib, 'gl')[0]
+                r = call()
+                if 'got' not in cur:
+                    rep.bad('value:' + path, 'extern "Python" function not called', det)
+                    continue
+                l, a = cur['got']
+                if ld_bytes(ffi, l) != lraw:
+                    rep.bad('longdouble-copy:' + path, 'C passed long double %s, Python received %s'
+                            % (lh, ld_bytes(ffi, l).hex()), det)
+                if not isinstance(a, float) or not same(a, ef):
+                    rep.bad('value:' + path, 'C passed float %s (%r) after a long double, Python '
+                            'received %r' % (fh, ef, a), det)
+                if bytes(ffi.buffer(lib.lastl)[0:10]) != lraw:
+                    rep.bad('c-received:longdouble-' + path, 'extern "Python" returned long double %s, '
+                            'C received %s' % (lh, bytes(ffi.buffer(lib.lastl)[0:10]).hex()), det)
+                if ld_bytes(ffi, r) != lraw:
+                    rep.bad('longdouble-copy:' + path, 'long double %s through extern "Python" and back: '
+                            '%s' % (lh, ld_bytes(ffi, r).hex()), det)
+                continue
+            cur['ret'] = ed
+            r = call()
+            if 'got' not in cur:
+                rep.bad('value:' + path, 'callback not called', det)
+                continue
+            c, a, b, l, a2 = cur['got']
+            if c != b'x' or not isinstance(a, float) or not same(a, ef) or not isinstance(a2, float) or \
+                    not same(a2, ef):
+                rep.bad('value:' + path, 'C passed (x, float %s = %r, ..., same float): Python received '
+                        '(%r, %r, ..., %r)' % (fh, ef, c, a, a2), det)
+            if not isinstance(b, float) or not same(b, ed):
+                rep.bad('value:' + path, 'C passed double %s = %r: Python received %r' % (dh, ed, b), det)
+            if ld_bytes(ffi, l) != lraw:
+                rep.bad('longdouble-copy:' + path, 'C passed long double %s, Python received %s'
+                        % (lh, ld_bytes(ffi, l).hex()), det)
+            if not same(r, ed) or (ed == ed and lib.lastd != dbits(ed)):
+                rep.bad('c-received:' + path, 'Python returned %r: C received bits %#x, call returned %r'
+                        % (ed, lib.lastd, r), det)
+        except Exception as e:
+            rep.bad('raised:' + path, 'args via %s of %s raised %s: %s' % (path, det, type(e).__name__, e), det)
+    return rep.result()
+
+
 def child_case(st, case):
     ffi, lib = st['ffi'], st['lib']
     T, path = case['T'], case['path']
     rep = core.ChildRep()
+    if T in ('float', 'double') and (path in F2PATHS or path in FRPATHS):
+        return fd_ext(ffi, lib, rep, T, path, case['vals'])
+    if T.endswith('_Complex') and (path in C2PATHS or path in CRPATHS):
+        return cx_ext(ffi, lib, rep, T, path, case['vals'])
+    if T == 'long double' and path in L2PATHS:
+        return ld_ext(ffi, lib, rep, path, case['vals'])
+    if T == 'args':
+        return args_ext(ffi, lib, rep, path, case['vals'])
     if T in ('float', 'double'):
         conv = c_float if T == 'float' else (lambda x: x)
         S = 'sf' if T == 'float' else 'sd'
